@@ -1,7 +1,7 @@
 (* C05 -- non-vacuity, sanity runs, and the witnesses for the policy of the unrepaired tree. *)
 From Coq Require Import List Bool Arith Lia.
 Import ListNotations.
-From GV Require Import gen.Gen_memo C01.Heap C01.Model C05.Model C05.Lemmas.
+From GV Require Import gen.Gen_memo C01.Heap C01.Model C05.Memo C05.Model C05.Lemmas.
 
 (* parts x > 1 (slot 0) and x < 5 (slot 1) on 4 elements; the values version decides the masks *)
 Definition fr0 : fresh_fn := fun n p dv l d v =>
@@ -77,3 +77,38 @@ Example exception_not_cached :
   snd (run (fun _ => None) fr0 [OEval rlink; OAddLink; OEval rlink] world0 empty_state)
   = [None; Some [false; true; false; true]].
 Proof. vm_compute. reflexivity. Qed.
+
+(* ---- Round 6: non-vacuity of the linking theorems: a well-keyed history over two decorated functions with a hit, clear_cache(0), a recomputation,
+   an unhashable call, a raising function, clear_mask_caches; the one memo returns the non-trivial results below, and so do the translated programs. *)
+Definition lk (f i : nat) : key := mkkey f i 0 0 0.
+Definition link_hist : list hop :=
+  [HCall 0 (mkcall false true (lk 0 1) (Some 5)); HCall 1 (mkcall false true (lk 1 1) (Some 6)); HCall 0 (mkcall false true (lk 0 1) (Some 7));
+   HClear 0; HCall 0 (mkcall false true (lk 0 1) (Some 7)); HCall 1 (mkcall false true (lk 1 1) (Some 9));
+   HCall 1 (mkcall false false (lk 1 1) (Some 9)); HCall 1 (mkcall false true (lk 1 2) None);
+   HClearAll; HCall 1 (mkcall false true (lk 1 1) (Some 9))].
+Example link_hist_well_keyed : well_keyed link_hist.
+Proof. repeat constructor. Qed.
+Example link_hist_results :
+  snd (flat_hist 2 link_hist []) = [RVal 5; RVal 6; RVal 5; RVal 7; RVal 6; RVal 9; RExc X_FUNC; RVal 9] /\
+  mlookup (lk 1 1) (fst (flat_hist 2 link_hist [])) = Some 9 /\ mlookup (lk 0 1) (fst (flat_hist 2 link_hist [])) = None.
+Proof. vm_compute. auto. Qed.
+Example link_hist_translated : exists st0 st',
+  decorate_all memoize_pre memoize_post 2 = Some st0 /\
+  run_hist memoize_wrapper clear_cache_body link_hist st0 =
+    Some (st', [RVal 5; RVal 6; RVal 5; RVal 7; RVal 6; RVal 9; RExc X_FUNC; RVal 9]) /\
+  mlookup (lk 1 1) (concat (m_dicts st')) = Some 9.
+Proof.
+  destruct (translated_memoize_is_model_memo 2 link_hist link_hist_well_keyed) as [st0 [st' [H0 [H1 [H2 _]]]]].
+  exists st0, st'. split; [exact H0|]. split; [exact H1|]. rewrite H2. reflexivity.
+Qed.
+(* the side condition of with_memo_e_is_wrapper_call holds at the And node of hist0's first request (nested: two inequality evaluations) *)
+Example with_memo_e_side_condition_met :
+  let compute := fun st => match evalE (lm_of fr0 world0) true 0 0 FPOS (NLeaf 2 (Some 9) 0) st with
+                           | (st1, Some x) => match evalE (lm_of fr0 world0) true 0 0 FPOS (NLeaf 3 (Some 9) 1) st1 with
+                                              | (st2, Some y) => salloc_e st2 (map2 andb (sget st2 x) (sget st2 y))
+                                              | (st2, None) => (st2, None) end
+                           | (st1, None) => (st1, None) end in
+  mlookup (mkkey 6 1 0 0 FKW) (st_memo (fst (compute empty_state))) = None /\
+  snd (with_memo_e true (Some 6) 1 0 0 FKW compute empty_state) = Some 2 /\
+  length (st_memo (fst (with_memo_e true (Some 6) 1 0 0 FKW compute empty_state))) = 3.
+Proof. vm_compute. auto. Qed.
